@@ -170,7 +170,7 @@ CORE_CLASSES = {
     "C05": ["timers", "mix"],
     "C06": ["reuse", "timers", "mix", "faults", "execs"],
     "C07": ["disable", "mix", "timers", "post", "execs"],
-    "C08": ["mix", "idle", "reuse", "post", "execs"],
+    "C08": ["mix", "idle", "reuse", "post", "execs", "timers"],
     "C09": ["post", "mix", "faults"],
     "C13": ["idle", "mix"],
     "C14": ["life", "faults", "mix"],
